@@ -98,7 +98,10 @@ TagsOk(to, raised, tags) == \/ raised = "" /\ tags \in AllowedTags(to)
 RECURSIVE Join(_, _)
 Join(s, sep) == IF Len(s) = 0 THEN "" ELSE IF Len(s) = 1 THEN s[1] ELSE s[1] \o sep \o Join(Tail(s), sep)
 OptOr(o, d)  == IF o = <<>> THEN d ELSE o[1]
-MapHit(tag, lo) == lo.map = "h" /\ tag = <<"animal", "dog">>
+\* export-side tags are triples <<key, value, flavour>>: flavour "k" = Tag(key=...) (the simple key-term), "h" = a hand-built
+\* Term with that label, "v" = a soundevent.terms vocabulary term with that label.  The KEY of a tag is its term's label
+\* whatever the flavour; label_mapping is keyed by whole tags, so only the key-built <<animal, dog>> hits it.
+MapHit(tag, lo) == lo.map = "h" /\ tag = <<"animal", "dog", "k">>
 \* one tag -> label (function, mapping, value only or key-separator-value); vo is the effective value_only
 OneLabel(tag, lo, vo) ==
     IF lo.fn THEN "fn<" \o tag[1] \o "|" \o tag[2] \o ">"
@@ -143,7 +146,7 @@ BoxDomainOk(g, c) == LET b == Bnd(g, c) IN b[1] < b[3] /\ b[2] < Min(b[4], Nyq(c
 Unconv(g, c) == IF NoGeom(g) THEN TRUE
                 ELSE IF ~IsBoxVia(c) THEN SegRefused(g, c)
                 ELSE IF BoxRefused(g, c) THEN TRUE ELSE ~BoxDomainOk(g, c)
-EvTags(i)    == <<<<"ev", ToString(i)>>>>
+EvTags(i)    == <<<<"ev", ToString(i), "k">>>>
 EvLabel(i, c) == CHOOSE s \in ReqLabels(EvTags(i), DefaultLo(IF c.vo THEN "t" ELSE "a")) : TRUE
 ExpItem(g, i, c) ==
     LET b == Bnd(g, c) IN
@@ -163,6 +166,7 @@ ReqExport(c) == IF ExpRaises(c) THEN [raised |-> TRUE, items |-> <<>>]
 (*                                      smp : <<>> | <<a, b>>, label]>>]    *)
 (*  l2t : out = [runs : <<[via, raised, tags]>>]                            *)
 (*  t2l, t1l : out = [raised, label]                                        *)
+(*  xs  : out = [raised, tl, ol : <<limbs, limbs>>, smp : <<a, b>>]         *)
 (* ======================================================================= *)
 Clauses == {"OnePerElementInOrder", "Times", "Freqs", "SamplesFloor", "NyquistCap", "ErrorPolicy",
             "TagsByCascade", "LabelByCascade", "RoundTrip"}
@@ -223,6 +227,24 @@ RtHolds(cl, o) ==
                  /\ el.frq # <<>> => NumIs(its[i].lo, <<el.frq[1], c.fden>>, TRUE) /\ NumIs(its[i].hi, <<el.frq[2], c.fden>>, TRUE)
       [] OTHER -> TRUE
 
+\* ---- xs: export of intervals whose times are arbitrary doubles (decimal fractions).  out.tl = the two doubles passed, as
+\* limb numbers (exact: flag 1), out.ol = the exported onset_s / offset_s, out.smp the sample indices.  floor(t x sr) is
+\* computed exactly on the limbs: sr = srf[1] * srf[2], both factors < 32768.  Boundary guard (DESIGN 2.5): the
+\* implementation multiplies in binary floating point; the rounded product can reach the next integer only when the exact
+\* product lies within half an ulp (<= 2^-34 for products < 2^20) below it, so floor + 1 is accepted exactly when the
+\* fraction of the exact product is >= 1 - 2^-32.
+ProdLimbs(v, srf) == LMulMag(LMulMag(v, srf[1]), srf[2])
+NearBelow(m)      == m[3] = B16 - 1 /\ m[4] = B16 - 1
+FloorOk(n, v, srf) == LET m == ProdLimbs(v, srf) IN n = m[2] \/ (NearBelow(m) /\ n = m[2] + 1)
+XsShape(o) == o.out.raised = "" /\ Len(o.out.smp) = 2 /\ Len(o.out.tl) = 2 /\ Len(o.out.ol) = 2
+XsHolds(cl, o) ==
+    CASE cl = "ErrorPolicy"  -> o.out.raised = ""
+      [] cl = "SamplesFloor" -> /\ XsShape(o) /\ o.in.srf[1] * o.in.srf[2] = o.in.sr
+                                /\ \A e \in 1..2 : /\ LFinite(o.out.tl[e]) /\ o.out.tl[e][1] >= 0 /\ o.out.tl[e][7] = 1
+                                                    /\ FloorOk(o.out.smp[e], o.out.tl[e], o.in.srf)
+      [] cl = "Times"        -> XsShape(o) => \A e \in 1..2 : o.out.ol[e] = o.out.tl[e]
+      [] OTHER -> TRUE
+
 \* ---- label cascades
 L2tHolds(cl, o) ==
     CASE cl = "TagsByCascade" -> \A u \in DOMAIN o.out.runs : TagsOk(o.in.to, o.out.runs[u].raised, o.out.runs[u].tags)
@@ -241,4 +263,5 @@ Holds(cl, o) ==
       [] o.in.kind = "l2t" -> L2tHolds(cl, o)
       [] o.in.kind = "t2l" -> T2lHolds(cl, o)
       [] o.in.kind = "t1l" -> T1lHolds(cl, o)
+      [] o.in.kind = "xs"  -> XsHolds(cl, o)
 =============================================================================
